@@ -7,12 +7,16 @@
      5 of_length [syms,lo,hi?,counted?]   6 count_mod [syms,k,rems?,counted?]
      7 nth_from_start [syms,s,n]   8 nth_from_end [syms,s,n]
      9 universal_language [syms]   10 empty_language [syms]
+     11 from_substring through the KMP mirror model (Model/KMP.v) [syms,p,contains,must_be_suffix]
+     13 from_substrings through the Aho-Corasick mirror model (Model/AhoCorasick.v)
+        [syms,patterns in iteration order,contains,must_be_suffix]
+   op 12: [p] -> the KMP failure table of the mirror model, entries shifted by one (-1 -> 0), as a result
    op 20: [dfa] -> [valid, is_minimal]
    op 21: [dfa, k, code, args] -> first word of length <= k over the DFA's alphabet on which the
           DFA and the boolean predicate (code, args) of Spec/Preds.v differ, as [] / [w] *)
 From Coq Require Import List Arith NArith Bool.
 From AV Require Import Base.Util Base.ITree Spec.Lang Spec.FA Spec.Preds
-                       Model.Codec Model.Decide Model.D00 Model.Construct.
+                       Model.Codec Model.Decide Model.D00 Model.Construct Model.KMP Model.AhoCorasick.
 Import ListNotations.
 
 Definition dec_words : itree -> option (list word) := dec_list dec_word.
@@ -61,6 +65,16 @@ Definition dec_ctor (op : nat) (t : itree) : option (res dfa) :=
     end
   | 9, L [ts] => match dec_nats ts with Some s => Some (Ok (universal_m s)) | None => None end
   | 10, L [ts] => match dec_nats ts with Some s => Some (Ok (empty_m s)) | None => None end
+  | 11, L [ts; tp; tc; tm] =>
+    match dec_nats ts, dec_word tp, dec_bool tc, dec_bool tm with
+    | Some s, Some p, Some c, Some m => Some (kmp_dfa s p c m)
+    | _, _, _, _ => None
+    end
+  | 13, L [ts; tp; tc; tm] =>
+    match dec_nats ts, dec_words tp, dec_bool tc, dec_bool tm with
+    | Some s, Some ps, Some c, Some m => Some (ac_dfa s ps c m)
+    | _, _, _, _ => None
+    end
   | _, _ => None
   end.
 
@@ -108,6 +122,11 @@ Definition d15 (op : nat) (t : itree) : itree :=
   | 20, L [td] =>
     match dec_dfa td with
     | Some d => L [Ib (valid_dfa d); Ib (is_minimal d)]
+    | None => bad_input
+    end
+  | 12, L [tp] =>
+    match dec_word tp with
+    | Some p => enc_res enc_nats (bind (kmp_table p) (fun T => Ok (map cinc T)))
     | None => bad_input
     end
   | 21, L [td; tk; tc; ta] =>
